@@ -11,7 +11,8 @@ RULE = ("generated programs; 1-3 runs of whole statements (any run, also unbalan
         "by INCLUDE lines; reader kind in {file, string}; include_dirs orderings with a decoy copy in a later directory; oracle: "
         "tree(main+includes) == tree(P). With the files absent and each run a sequence of complete sibling statements: the parse "
         "succeeds and the printed text equals that of P with the run replaced by a marker, the marker spelled INCLUDE 'file'. "
-        "non-trivial = >= 2 include files or a nested include")
+        "non-trivial = >= 2 include files or a nested include"
+        " Correspondence: the reader model resolves the same INCLUDE lines over the same files and include path (Fp.Reader, file-system triples) and its item stream is compared with the real reader's on every second case.")
 ASSUMPTIONS = ["include files are written so that format detection gives free form (each line indented by one blank; runs whose "
                "every line is labelled are not used): the detection boundary is C05's known finding"]
 TIE_MODULES = ["FparserModel.Reader", "FparserModel.Block"]
@@ -119,16 +120,23 @@ def run_case(case):
             res["nontrivial"] = len(files) >= 2 or nested
             res["counts"]["files"] = len(files)
             res["counts"]["nested"] = 1 if nested else 0
+            placed = []
             for name, body in files.items():
                 dd = d1 if rng.random() < 0.6 else d2
                 with open(os.path.join(dd, name), "w") as f:
                     f.write("\n".join(body) + "\n")
+                placed.append((os.path.join(na if dd == d1 else nb, name), "\n".join(body) + "\n"))
                 if dd == d1 and rng.random() < 0.5:
                     # decoy with different content in the LATER directory
                     with open(os.path.join(d2, name), "w") as f:
                         f.write(" call decoy_must_not_be_read()\n")
+                    placed.append((os.path.join(nb, name), " call decoy_must_not_be_read()\n"))
                     res["counts"]["decoy"] = res["counts"].get("decoy", 0) + 1
             src = "\n".join(main) + "\n"
+            if case["seed"] % 2 == 0:
+                # the reader model resolves the same INCLUDE lines over the same files
+                res["findings"] += util.reader_cosim(src, "free", ic=(True,), dirs=[na, nb], fs=placed, case=case)
+                res["counts"]["reader-cosim"] = 1
             res["sample"] = {"seed": case["seed"], "files": sorted(files), "main_head": src[:200]}
             if case["reader"] == "file":
                 path = os.path.join(root, "main.f90")
